@@ -132,6 +132,19 @@ func (c *Ctx) NewLitFlow(name string, info *types.Info, lit *ast.FuncLit) *Flow 
 func (c *Ctx) newFlow(name string, info *types.Info, body *ast.BlockStmt) *Flow {
 	f := &Flow{c: c, Name: name, Info: info, Body: body, atoms: map[*cfg.Block][]*Atom{}, exitAtoms: map[*cfg.Block][]*Atom{}}
 	f.G = cfg.New(body, func(call *ast.CallExpr) bool { return !isNoReturnCall(info, call) })
+	// select statements: go/cfg evaluates every comm statement in the block
+	// before the select; a communication happens only in the chosen case, so
+	// its atoms are moved to the head of that case's body block.
+	commOf := map[ast.Stmt]bool{}
+	ast.Inspect(body, func(n ast.Node) bool {
+		if _, ok := n.(*ast.FuncLit); ok {
+			return false
+		}
+		if cc, ok := n.(*ast.CommClause); ok && cc.Comm != nil {
+			commOf[cc.Comm] = true
+		}
+		return true
+	})
 	for _, b := range f.G.Blocks {
 		if !b.Live {
 			continue
@@ -140,7 +153,15 @@ func (c *Ctx) newFlow(name string, info *types.Info, body *ast.BlockStmt) *Flow 
 		add := func(n ast.Node, fl atomFlags) {
 			list = append(list, &Atom{N: n, Blk: b, Lit: fl.lit, May: fl.may, Seq: fl.seq})
 		}
+		if b.Kind == cfg.KindSelectCaseBody {
+			if cc, ok := b.Stmt.(*ast.CommClause); ok && cc.Comm != nil {
+				f.collect(cc.Comm, atomFlags{}, add)
+			}
+		}
 		for _, n := range b.Nodes {
+			if st, ok := n.(ast.Stmt); ok && commOf[st] {
+				continue
+			}
 			if ds, ok := n.(*ast.DeferStmt); ok {
 				rec := &deferRec{stmt: ds, blk: b, idx: len(list)}
 				// arguments are evaluated now; the call (and an IIFE body) runs at exit
@@ -698,6 +719,9 @@ func (f *Flow) search(sp searchSpec) *Witness {
 			continue
 		}
 		if len(it.b.Succs) == 0 {
+			if it.b.Kind == cfg.KindSelectAfterCase {
+				continue // tail of a select without default: blocks, not an exit
+			}
 			if sp.exits && !f.isPanicExit(it.b) && (sp.exitFilter == nil || sp.exitFilter(it.b)) {
 				return mk(it, nil, it.b)
 			}
